@@ -43,6 +43,8 @@ MARKUP = gen_model.profile(**dict(TEXT, text_markup=True, max_nodes=16, ruby=Fal
 UNICODE = gen_model.profile(**dict(TEXT, text_unicode=True, max_nodes=16, time_shifts=None))
 # preserved text holding carriage returns (e.g. read from &#13; in TTML): CR is a line terminator for SRT / WebVTT readers
 CR = gen_model.profile(**dict(TEXT, preserve=True, xml_safe=False, max_nodes=16, time_shifts=None))
+# text hidden by tts:visibility (specified, inherited from an ancestor or the region, or animated)
+HIDDEN = gen_model.profile(**dict(TEXT, props=STYLE_PROPS + ["Visibility", "Visibility"], style_density=(1, 3), max_nodes=20, time_shifts=None))
 SHRINK = gen_model.case_simplifications("spec")
 
 SRT_CFGS = {"srt": None, "srt-noformat": SRTWriterConfiguration(text_formatting=False)}
@@ -157,6 +159,8 @@ def check(case, res):
     res.label("preserve-text-visible")
   if any("cr" in ch.leaf[2] for c in exp for l in c.lines for ch in l[:1]):
     res.label("carriage-return-in-visible-preserved-text")
+  if cuecheck.HIDDEN_TOKENS:
+    res.label("visibility-hidden-text")
   try:
     out = run_writer(doc, cfg)
   except Exception as e:  # pylint: disable=broad-except
@@ -184,6 +188,7 @@ PARTS = {
   "markup": Part("markup", check, strategy=cases(MARKUP, cfgs=VTT_NAMES), n=(320, 16000), shrinker=SHRINK,
                  required_labels=("text-with-markup-characters",)),
   "unicode": Part("unicode", check, strategy=cases(UNICODE), n=(240, 12000), shrinker=SHRINK),
+  "hidden": Part("hidden", check, strategy=cases(HIDDEN), n=(320, 16000), shrinker=SHRINK, required_labels=("visibility-hidden-text",)),
   "cr": Part("cr", check, strategy=cases(CR), n=(240, 12000), shrinker=SHRINK, required_labels=("carriage-return-in-visible-preserved-text",)),
   "subms": Part("subms", check, strategy=cases(SUBMS, True), n=(480, 24000), shrinker=SHRINK,
                 required_labels=("sub-millisecond-interval-without-cue-among-others", "sub-millisecond-interval-crossing-a-millisecond")),
